@@ -176,7 +176,7 @@ Definition world_of (w : world2) (o : op2) : world2 := (step2 w o).1.1.
 
 Lemma step2_Inv w o : Forall Inv (nets w) → Forall Inv (nets (step2 w o).1.1).
 Proof.
-  intros Hw. destruct o as [o|i l r rule eid|i j e rule eid|k l|k x c|i kl kr rule eid|i es p|i e lhs x c|i e lhs x b|i q];
+  intros Hw. destruct o as [o|i l r rule eid|i j e rule eid|k l|k x c|i kl kr rule eid|i es p|i e lhs x c|i e lhs x b|i q|k' l'];
     [destruct (step2_base w o) as (-> & _); by apply step_Inv|cbn [step2]..].
   - pose proof (add_Inv (getn (nets w) i) (normalize_items l) (normalize_items r) rule eid (getn_Inv _ i Hw)) as H.
     destruct (add _ _ _ _ _) as [[s er] ?]. cbn. by apply Forall_insert.
@@ -196,6 +196,7 @@ Proof.
                   (λ sd, side_incr_g_dom sd x b) (getn_Inv _ i Hw)) as H.
     destruct (edit_side _ _ _ _) as [s er]. cbn. by apply Forall_insert.
   - done.
+  - done.
 Qed.
 
 Lemma run2_Inv ops : ∀ w, Forall Inv (nets w) → Forall Inv (nets (fold_left (λ w o, (step2 w o).1.1) ops w)).
@@ -211,12 +212,12 @@ Definition target2 (o : op2) : option nat :=
   | OBase o' => Some (target o')
   | OAddItems i _ _ _ _ | OAddFrom i _ _ _ _ | OAddPool i _ _ _ _ | OMergeRaw i _ _
   | OSideSet i _ _ _ _ | OSideIncr i _ _ _ _ => Some i
-  | OPoolNew _ _ | OPoolEdit _ _ _ | OQuery _ _ => None
+  | OPoolNew _ _ | OPoolEdit _ _ _ | OQuery _ _ | OPoolUpdate _ _ => None
   end.
 
 Lemma step2_frame w o k : target2 o ≠ Some k → getn (nets (step2 w o).1.1) k = getn (nets w) k.
 Proof.
-  intros Hk. destruct o as [o|i l r rule eid|i j e rule eid|k' l|k' x c|i kl kr rule eid|i es p|i e lhs x c|i e lhs x b|i q];
+  intros Hk. destruct o as [o|i l r rule eid|i j e rule eid|k' l|k' x c|i kl kr rule eid|i es p|i e lhs x c|i e lhs x b|i q|k' l'];
     [destruct (step2_base w o) as (-> & _); apply step_frame; cbn in Hk; congruence|cbn [step2 target2] in *..].
   - destruct (add _ _ _ _ _) as [[s er] ?]. cbn. apply getn_setn_ne. congruence.
   - destruct (edges _ !! e); [|done]. destruct (add _ _ _ _ _) as [[s er] ?]. cbn. apply getn_setn_ne. congruence.
@@ -226,6 +227,7 @@ Proof.
   - destruct (merge_raw _ _ _) as [s er]. cbn. apply getn_setn_ne. congruence.
   - destruct (edit_side _ _ _ _) as [s er]. cbn. apply getn_setn_ne. congruence.
   - destruct (edit_side _ _ _ _) as [s er]. cbn. apply getn_setn_ne. congruence.
+  - done.
   - done.
 Qed.
 
@@ -237,6 +239,15 @@ Lemma pool_edit_pure w k x c : nets (step2 w (OPoolEdit k x c)).1.1 = nets w.
 Proof. done. Qed.
 Lemma pool_new_pure w k l : nets (step2 w (OPoolNew k l)).1.1 = nets w.
 Proof. done. Qed.
+Lemma pool_update_pure w k l : nets (step2 w (OPoolUpdate k l)).1.1 = nets w.
+Proof. done. Qed.
+
+(** RXNSide.update adds the normalised counts *)
+Lemma coef_union_with (m1 m2 : gmap string positive) x :
+  coef (union_with (λ p q, Some (p + q)%positive) m1 m2) x = (coef m1 x + coef m2 x)%Z.
+Proof. unfold coef, side. rewrite lookup_union_with. destruct (m1 !! x), (m2 !! x); cbn; lia. Qed.
+Lemma coef_side_update sd l x : coef (side_update sd l) x = (coef sd x + total x l)%Z.
+Proof. unfold side_update. by rewrite coef_union_with, coef_normalize_items. Qed.
 
 (** * 3. molecule labels *)
 
@@ -443,7 +454,7 @@ Proof.
   destruct (decide (target2 o = Some k)) as [Ht|Hne]; [|by rewrite step2_frame].
   destruct (decide (k < length (nets w))%nat) as [Hlt|Hge]; cycle 1.
   { rewrite getn_ge in He by lia. cbn in He. by rewrite lookup_empty in He. }
-  destruct o as [o|i l r rule eid|i j e0 rule eid|k' l|k' x c|i kl kr rule eid|i es p|i e0 lhs x c|i e0 lhs x b|i q];
+  destruct o as [o|i l r rule eid|i j e0 rule eid|k' l|k' x c|i kl kr rule eid|i es p|i e0 lhs x c|i e0 lhs x b|i q|k' l'];
     cbn [target2 may_drop2] in *; try done.
   - destruct (step2_base w o) as (-> & _). by apply step_stored_kept.
   - injection Ht as ->. cbn [step2].
